@@ -68,6 +68,46 @@ def agg_def(fv, o, adt):
     return None
 
 
+def decode_truth_table(F, dec, roles1, roles2):
+    """(exact, message): decompress interpreted with step_1 / step_2 replaced by each of the 32 combinations of their five flags (constant Choices, everything
+    else unknown) returns Some for exactly one combination: canonical, s non-negative, square, t non-negative, y non-zero - and None for the 31 others"""
+    from absint import Interp, I as Iv, TOP as TOP_
+    from absint_models import Models
+    import itertools
+
+    class TT(Models):
+        flags = None
+
+        def call(self, ip, fv, st, depth, t, n, a, dty):
+            m = re.search(r"ristretto::decompress::(step_1|step_2)$", n)
+            if m:
+                roles, cnt = (roles1, 3) if m.group(1) == "step_1" else (roles2, 4)
+                out = [TOP_] * max(cnt, max(roles.values()) + 1)
+                for k, i in roles.items():
+                    if k in self.flags:
+                        out[i] = ("st", (Iv(self.flags[k]),))
+                return ("st", tuple(out))
+            return super().call(ip, fv, st, depth, t, n, a, dty)
+    names = ["canonical", "negative", "ok", "t_negative", "y_zero"]
+    good = {"canonical": 1, "negative": 0, "ok": 1, "t_negative": 0, "y_zero": 0}
+    rows = 0
+    for bits in itertools.product((0, 1), repeat=5):
+        fl = dict(zip(names, bits))
+        mdl = TT()
+        mdl.flags = fl
+        ip = Interp(F, mdl, step_budget=200_000)
+        try:
+            ret, root_ = ip.run_root(dec, [TOP_])
+        except Exception as e:
+            return False, "decision table could not be evaluated: %r" % (e,)
+        vs = {v for v, _ in ret[1]} if ret is not None and ret[0] == "en" else None
+        want = {1} if fl == good else {0}
+        if vs != want:
+            return False, "with flags %s decompress returns %s" % (fl, "an unknown value" if vs is None else ("Some" if vs == {1} else ("None" if vs == {0} else "Some or None")))
+        rows += 1
+    return True, "the decision table was evaluated: of the %d combinations of (canonical, s negative, square, t negative, y zero) only (1, 0, 1, 0, 0) returns Some" % rows
+
+
 def check_cfg(F, R, cfg):
     I = lambda s: "%s:%s" % (cfg, s)
 
@@ -185,12 +225,20 @@ def check_cfg(F, R, cfg):
     somes = [s["bb"] for s in success_sites(dv)]
     if not somes:
         R.viol("C06.decode", I("decompress"), "no Some exit found", dv.loc())
+    tt = None
     for name, step, idx, want in FLAGS:
         edges = expr_guard_edges(dv, flag_atom(step, idx), want)
         ok = bool(edges) and bool(somes) and dominated(dv, somes, edges)
+        if not ok:
+            # the dominance form is not recognised (flags combined differently): decide the decision table itself
+            if tt is None:
+                tt = decode_truth_table(F, dec, roles1, roles2)
+            if tt[0]:
+                R.ok("C06.decode." + name, I("CompressedRistretto::decompress"), "structural form not recognised; " + tt[1])
+                continue
         (R.ok if ok else R.viol)("C06.decode." + name, I("CompressedRistretto::decompress"),
                                  "Some only when %s is %s" % (name, want) if ok else
-                                 "a Some exit of decompress is not dominated by the rejection test on flag '%s' (must be %s)" % (name, want),
+                                 "a Some exit of decompress is not dominated by the rejection test on flag '%s' (must be %s)%s" % (name, want, ("; " + tt[1]) if tt else ""),
                                  *(() if ok else (dv.loc(),)))
     # payload and wiring
     for s in success_sites(dv):
@@ -247,6 +295,12 @@ def check_cfg(F, R, cfg):
     if fu:
         fv = view(F, fu)
         good, msg = check_uniform(fv)
+        import formula_rules as FR_
+        sem_ok, sem_msg = FR_.one_way_map(F)
+        if sem_ok is True:
+            good, msg = True, sem_msg           # decided semantically (LINCOMB domain); the structural rule only explains failures
+        elif sem_ok is False:
+            good, msg = False, sem_msg + ("" if good else "; " + msg)
         (R.ok if good else R.viol)("C06.one_way_map", I("from_uniform_bytes"), msg, *(() if good else (fv.loc(),)))
 
     # ---------------------------------------------------------------- equality is the coset test on both products
